@@ -25,6 +25,9 @@ EXPLANATION = (
     'cut short and covers every write; exactness of the undo for every '
     'history beyond the matrix is not decided.'
     ' R2.6b: every backup gets its own slot (the counter naming backup files is read and incremented in one critical section).')
+# round 3/4 additions
+EXPLANATION += (
+    ' R2.6b also decides that the backup slot name is an injective encoding of the ticket (whole ticket or positional digits, digit before quotient). R2.10 takes the guard facts from control dependence. R2.11: concurrently created directories keep an owner (R9.6) and directories made before a failing mkdir are handed off (R14.3).')
 
 EFFECTS = (DESTROY, CREATE, USER, UNKNOWN)
 
